@@ -379,6 +379,7 @@ func c09Spec() propSpec {
 			minOps:         3, maxOps: 40,
 			dh: []int{0, 0, 0, 0, -1, -1, 1, 1, 2, 3, -2}, dr: []int{0, 0, 0, 1, 1, 2, 3, -1},
 			multiTarget: true,
+			lostHeader:  true,
 		},
 		own:    ownership{liveness: true},
 		oracle: c09Oracle,
